@@ -1596,6 +1596,93 @@ func TestGocvReplay(t *testing.T) {
 	}
 }
 `}
+	// big integers (C18 / C01): the two's-complement conversions run through math/big and carry loops whose
+	// functional specification is not discharged; this bounded check stands in for them
+	replayers["scenario:C18-bigint"] = &Replayer{PkgDir: "ttlv", Oracle: "every accepted binary Big Integer item from a grid of value patterns (lengths 8, 16 and 24 bytes; all-zero, all-ones, sign-boundary and redundant sign-extension patterns; 2000 pseudo-random values with a fixed seed) decodes, re-encodes, decodes again to the same number, and the second re-encoding is byte-identical to the first",
+		Template: `package ttlv
+
+import (
+	"bytes"
+	"math/big"
+	"math/rand"
+	"testing"
+)
+
+func TestGocvReplay(t *testing.T) {
+	var inputs [][]byte
+	for _, n := range []int{8, 16, 24} {
+		for _, fill := range []byte{0x00, 0xFF, 0x80, 0x7F, 0x01} {
+			v := bytes.Repeat([]byte{fill}, n)
+			inputs = append(inputs, v)
+			for _, lead := range []byte{0x00, 0xFF, 0x80, 0x7F} {
+				w := append([]byte{}, v...)
+				w[0] = lead
+				inputs = append(inputs, w)
+				x := append([]byte{}, v...)
+				x[n-8] = lead // first byte of the last word: redundant sign extension in front of it
+				inputs = append(inputs, x)
+			}
+		}
+	}
+	rng := rand.New(rand.NewSource(1))
+	for i := 0; i < 2000; i++ {
+		v := make([]byte, 8*(1+rng.Intn(3)))
+		rng.Read(v)
+		switch rng.Intn(4) {
+		case 0:
+			for j := 0; j < len(v)-8; j++ {
+				v[j] = 0xFF
+			}
+		case 1:
+			for j := 0; j < len(v)-8; j++ {
+				v[j] = 0x00
+			}
+		}
+		inputs = append(inputs, v)
+	}
+	item := func(val []byte) []byte {
+		b := []byte{0x42, 0x00, 0x3C, 0x04, 0, 0, 0, byte(len(val))}
+		return append(b, val...)
+	}
+	for _, val := range inputs {
+		in := item(val)
+		r1, err := newTTLVReader(in)
+		if err != nil {
+			continue
+		}
+		n1, err := r1.BigInteger(0x42003C)
+		if err != nil {
+			continue // not accepted: nothing to say
+		}
+		w1 := &ttlvWriter{}
+		w1.BigInteger(0x42003C, n1)
+		r2, err := newTTLVReader(w1.Bytes())
+		if err != nil {
+			t.Fatalf("GOCV-REPRODUCED: {{.Obligation}}: the re-encoding %x of the accepted big integer %x is rejected: %v", w1.Bytes(), in, err)
+		}
+		n2, err := r2.BigInteger(0x42003C)
+		if err != nil {
+			t.Fatalf("GOCV-REPRODUCED: {{.Obligation}}: the re-encoding %x of the accepted big integer %x is rejected: %v", w1.Bytes(), in, err)
+		}
+		if n1.Cmp(n2) != 0 {
+			t.Fatalf("GOCV-REPRODUCED: {{.Obligation}}: big integer %x decodes to %s, its re-encoding %x decodes to %s", in, n1, w1.Bytes(), n2)
+		}
+		w2 := &ttlvWriter{}
+		w2.BigInteger(0x42003C, n2)
+		if !bytes.Equal(w1.Bytes(), w2.Bytes()) {
+			t.Fatalf("GOCV-REPRODUCED: {{.Obligation}}: second re-encoding of %x differs: %x then %x", in, w1.Bytes(), w2.Bytes())
+		}
+		// the value read is the two's-complement value of the bytes
+		want := new(big.Int).SetBytes(val)
+		if val[0]&0x80 != 0 {
+			want.Sub(want, new(big.Int).Lsh(big.NewInt(1), uint(8*len(val))))
+		}
+		if want.Cmp(n1) != 0 {
+			t.Fatalf("GOCV-REPRODUCED: {{.Obligation}}: big integer bytes %x denote %s but decode to %s", val, want, n1)
+		}
+	}
+}
+`}
 	// connection faults, sequential part (C11)
 	replayers["scenario:C11"] = &Replayer{PkgDir: "kmipclient", Oracle: "a client whose (re)connection failed can still be closed without panic and its calls fail; a call over connections that all end with EOF dials at most 4 times and returns an error",
 		Template: `package kmipclient
